@@ -293,7 +293,7 @@ def main():
                     run_cli(env, emit, [mol], e['via'] == 'cli_nosrc', e.get('with_ref', True), 1, 'replay')
                 return
             tid = 1
-            n_api = 300 if tier == "quick" else 8000
+            n_api = 300 if tier == "quick" else 15000
             batch = []
             for k in range(n_api):
                 mol = gen_molecule(rng, env.ref, rng.randint(500, 100000), rng.choice(['chr1', 'chr2']))
